@@ -259,6 +259,20 @@ func (e *Engine) Run(fn *core.Func) ([]*Path, error) {
 	return e.RunBody(fn.Decl.Type, fn.Decl.Recv, fn.Decl.Body)
 }
 
+// RunRegion explores the top-level statements of fn's body from the first one
+// for which start returns true to the end of the body (variables assigned
+// before the region are free: they appear under their own names).
+func (e *Engine) RunRegion(fn *core.Func, start func(ast.Stmt) bool) ([]*Path, error) {
+	e.fn = fn
+	e.Info = fn.Pkg.TypesInfo
+	for i, s := range fn.Decl.Body.List {
+		if start(s) {
+			return e.RunBody(fn.Decl.Type, fn.Decl.Recv, &ast.BlockStmt{Lbrace: s.Pos(), List: fn.Decl.Body.List[i:], Rbrace: fn.Decl.Body.Rbrace})
+		}
+	}
+	return nil, fmt.Errorf("%s: region start not found in %s", e.Prog.Pos(fn.Decl.Pos()), fn.Name())
+}
+
 // RunBody explores a function literal or declaration body.
 func (e *Engine) RunBody(ft *ast.FuncType, recv *ast.FieldList, body *ast.BlockStmt) (paths []*Path, err error) {
 	if e.MaxPaths == 0 {
@@ -567,6 +581,11 @@ func (e *Engine) store(v *env, lhs ast.Expr, val string, pos token.Pos) {
 	if obj := e.localObj(lhs); obj != nil {
 		v.bind[obj] = val
 		delete(v.boolv, obj)
+		if e.TrackStore != nil {
+			if n := e.TrackStore(lhs, obj.Name()); n != "" {
+				v.events = append(v.events, Event{Kind: "store", Name: n, Args: []string{val}, Recv: obj.Name(), Pos: pos, Node: lhs})
+			}
+		}
 		return
 	}
 	key := e.key(v, lhs)
@@ -1406,4 +1425,34 @@ func RecvVarName(fd *ast.FuncDecl) string {
 		return fd.Recv.List[0].Names[0].Name
 	}
 	return ""
+}
+
+// LastCall returns the name of the outermost (last, top-level) method or
+// function called in a canonical key such as "tx.Bucket([]byte(x)).Put(k, v).1" → "Put".
+func LastCall(key string) string {
+	depth := 0
+	name := ""
+	start := -1
+	for i, r := range key {
+		switch r {
+		case '(', '[', '{':
+			if r == '(' && depth == 0 && start >= 0 {
+				name = key[start:i]
+			}
+			depth++
+			start = -1
+		case ')', ']', '}':
+			depth--
+			start = -1
+		case '.', ' ', ',', '&', '*', '!':
+			if depth == 0 {
+				start = i + 1
+			}
+		default:
+			if depth == 0 && start < 0 && i == 0 {
+				start = 0
+			}
+		}
+	}
+	return name
 }
